@@ -53,6 +53,7 @@ def run(ctx):
     cases = codec.gen_cases(ctx, ctx.n(100, 2000), depth=3, any_der=True) + targeted(ctx)
     cases += codec.leaf_boundary_cases(ctx, every=3 if ctx.tier == 'quick' else 1)
     cases += codec.presence_grid_cases(ctx, every=2 if ctx.tier == 'quick' else 1)
+    cases += codec.long_string_cases(ctx, every=2 if ctx.tier == 'quick' else 1)           # zeros / data around the CER segment boundaries
     cases += codec.empty_member_grid_cases(ctx, every=3 if ctx.tier == 'quick' else 1)   # empty / non-empty constructed members around OPTIONAL ones
     cases += codec.tag_grid_cases(ctx, every=2 if ctx.tier == 'quick' else 1)            # every kind under every tagging shape of depth 0..2
     cases += codec.set_order_grid_cases(ctx, every=12 if ctx.tier == 'quick' else 1)     # every ordered pair of differently tagged SET members
